@@ -221,6 +221,17 @@ def handle (toks : List String) : String :=
     let sc := (sched.splitOn ",").filterMap String.toNat?
     let g := Gens.runSched mx P (Gens.initGS (start.toNat?.getD 0) (nthr.toNat?.getD 0)) sc
     "|".intercalate (g.thrs.map fun th => ",".intercalate (th.outs.map toString)) ++ " seq=" ++ toString g.seq
+  | "WPATH" :: msgs :: "|" :: evs =>
+    let ms : List (Option WP.Bytes) := (msgs.splitOn ",").map fun m => if m == "-" then none else (ofHex m).map (·.map UInt8.toNat)
+    let es : List WP.Ev := evs.filterMap fun e =>
+      if e == "w" then some .w
+      else if e == "ls" then some (.l .soft)
+      else if e == "lh" then some (.l .hard)
+      else if e.startsWith "l" then (e.drop 1).toNat?.map fun k => WP.Ev.l (.accept k)
+      else if e.startsWith "p" then (e.drop 1).toNat?.map fun i => WP.Ev.put ((ms[i]?).getD none)
+      else none
+    let s := WP.run Gen.writeProg {} es
+    s!"sent={toHex (s.sent.map Nat.toUInt8)} buf={toHex (s.buf.map Nat.toUInt8)} crashed={if s.crashed then 1 else 0} q={s.q.length} w={s.wpath.length} l={s.lpath.length}"
   | "FRAME" :: chunks =>
     match chunks.mapM ofHex with
     | none => "BAD"
